@@ -73,12 +73,13 @@ def run(ctx):
         vf.write_ndjson(fn, events)
         return fn
 
-    # First a fast pass (states more than `lag` events behind the furthest one are not expanded; quick: 1 event over one
-    # file, thorough: 3 events, one file per shard - the full search of 16-operation scenarios on the dense 4-agent
-    # topologies takes hours); a scenario the fast pass gets stuck in is validated on its own with the full search
-    # (every order of the silent steps) before anything is said about it.
+    # quick: a fast pass over one file (states more than 1 event behind the furthest one are not expanded); thorough: the
+    # full search (every order of the silent steps, S1-S5 on every state) per shard, pruned search when it does not
+    # finish in time.  A scenario a pass gets stuck in is validated on its own with the full search before anything is
+    # said about it.
     scens = S.split_scenarios(all_events)
-    lag0 = 1 if quick else 3
+    lag0 = 1 if quick else 0
+    full_to = 420            # thorough: the full search per shard, pruned search (lag 3) when it does not finish in time
     if quick:
         groups = [scens]
     else:
@@ -89,7 +90,8 @@ def run(ctx):
             groups = [scens]
     st = {"accepted": 0, "rejected": [], "full_runs": 0, "rerecorded": [], "skipped": 0, "n": 0}
     dir_skipped = directed_sum.get("skipped")
-    vjobs = [S.validate_job(write_trace([e for sc in g for e in sc], "group-%d.ndjson" % k), "group%d" % k, lag=lag0)
+    vjobs = [S.validate_job(write_trace([e for sc in g for e in sc], "group-%d.ndjson" % k), "group%d" % k, lag=lag0,
+                            timeout=3000 if quick else full_to, fallback_lag=None if quick else 3)
              for k, g in enumerate(groups)]
     vjobs += [S.validate_job(resur_file, "resurrect"),
               S.validate_job(resur_file, "resurrect-dev", dev=["DevEndpointSurvivesReconnect"], check=False)]
@@ -99,6 +101,7 @@ def run(ctx):
     vd = par(ctx, vjobs)
     v_dir, v_dirdev = (vd[-2], vd[-1]) if not dir_skipped else ({"accepted": None}, {"accepted": None})
     v_res, v_resdev = vd[len(groups)], vd[len(groups) + 1]
+    search = {"lag_per_group": [v.get("lag") for v in vd[:len(groups)]], "states_per_group": [v.get("states") for v in vd[:len(groups)]]}
 
     def settle_group(rest, v):
         """rest: scenarios, v: validation result of their concatenation"""
@@ -236,6 +239,6 @@ def run(ctx):
                  traces_validated_against_impl=accepted_scen + (1 if v_dir["accepted"] or v_dirdev["accepted"] else 0)
                  + (1 if v_res["accepted"] or v_resdev["accepted"] else 0),
                  scenarios_recorded=nscen, scenarios_accepted=accepted_scen, scenarios_rejected=len(rejected), scenarios_not_validated=skipped,
-                 resurrect=resurrect, trace_events=len(all_events), full_search_reruns=full_runs, rerecorded=rerecorded, ops=opcount, topologies=topo_count, directed=directed,
+                 resurrect=resurrect, trace_search=search, trace_events=len(all_events), full_search_reruns=full_runs, rerecorded=rerecorded, ops=opcount, topologies=topo_count, directed=directed,
                  samples=[{"scenario": [S.brief(e) for e in sample_scen[:14]]},
                           {"logged_state": (sample_scen[-1].get("st") if sample_scen else None)}])
